@@ -12,6 +12,12 @@ mod verif_kani {
         assert!(w <= c.len_utf8());
     }
 
+    // axiom chw_space of prelude/ansi_chunks.vrs (C20's equal-row-width theorem): a space is one column wide
+    #[kani::proof]
+    fn k1_space_is_one_column() {
+        assert!(ch_width(' ') == 1);
+    }
+
     // reachability / vacuity guard: the claim below is false and must be refuted
     #[kani::proof]
     #[kani::should_panic]
